@@ -85,14 +85,15 @@ Lemma mv_advance n s s' : advance n s = Ok s' -> wfl s ->
 Proof.
   unfold advance. intros H W. bsteps. cbn [s_pos s_end s_rest].
   pose proof (wfl_shift s (N.to_nat n) W) as Hs. rewrite N2Nat.id in Hs.
-  repeat split; try lia. apply Hs. lia.
+  split; [apply Hs; lia | split; reflexivity].
 Qed.
 
 Lemma mv_skip_bytes f s : wfl s -> mvk 0 s (skip_bytes f s).
 Proof.
   intros W. unfold skip_bytes, mvk. cbn [s_pos s_end s_rest].
   pose proof (scan_le f (s_rest s) (N.to_nat (s_end s - s_pos s))).
-  repeat split; try lia. apply wfl_shift; [assumption|]. destruct W as (_ & ? & _). lia.
+  split; [|split; [reflexivity|lia]].
+  apply wfl_shift; [assumption|]. destruct W as (_ & ? & _). lia.
 Qed.
 
 Lemma mv_skip_spaces s : wfl s -> mvk 0 s (skip_spaces s).
@@ -136,5 +137,199 @@ Ltac gen_skips :=
 
 (* [lem : f .. s = Ok r -> wfl s -> (A /\ B /\ C)] *)
 Ltac fwd H lem :=
-  apply lem in H; [ | assumption ];
+  eapply lem in H; [ | eassumption ];
   repeat match type of H with _ /\ _ => let H' := fresh "Hm" in destruct H as [H' H] end.
+
+Ltac mvfin := unfold mvk in *; split; [assumption | split; lia].
+
+Ltac fwdm H lem :=
+  eapply lem in H; [ | eassumption ]; unfold mvk in H;
+  repeat match type of H with _ /\ _ => let H' := fresh "Hm" in destruct H as [H' H] end.
+
+Ltac pfw0 :=
+  idtac; match goal with
+  | W : wfl _ ?s, H : advance _ ?s = Ok _ |- _ => fwdm H mv_advance
+  end.
+
+Ltac run_with p := bsteps; repeat first [progress gen_skips | p]; try mvfin.
+
+Section Prims.
+Variable text : bytes.
+Notation stream := Stream.stream.
+Notation wfl := (wfl text).
+Notation mvk := (mvk text).
+
+Lemma mv_consume_byte c s s' : consume_byte text c s = Ok s' -> wfl s -> mvk 1 s s'.
+Proof. unfold consume_byte. intros H W. run_with pfw0. Qed.
+
+Lemma mv_try_consume_byte c s b s' : try_consume_byte c s = (b, s') -> wfl s ->
+  mvk (if b then 1 else 0) s s'.
+Proof.
+  unfold try_consume_byte. intros H W.
+  destruct (curr_byte_opt s); [|inversion H; subst; apply mvk_refl; assumption].
+  destruct (n =? c); [|inversion H; subst; apply mvk_refl; assumption].
+  destruct (advance 1 s) eqn:E; inversion H; subst; try (apply mvk_refl; assumption).
+  fwdm E mv_advance. mvfin.
+Qed.
+
+Lemma mv_skip_string p s s' : skip_string text p s = Ok s' -> wfl s -> mvk 0 s s'.
+Proof. unfold skip_string. intros H W. run_with pfw0. Qed.
+
+Lemma mv_consume_bytes f s sl s' : consume_bytes text f s = Ok (sl, s') -> wfl s -> mvk 0 s s'.
+Proof. unfold consume_bytes. intros H W. run_with pfw0. Qed.
+
+Lemma mv_consume_spaces s s' : consume_spaces text s = Ok s' -> wfl s -> mvk 0 s s'.
+Proof. unfold consume_spaces. intros H W. run_with pfw0. Qed.
+
+Lemma mv_advance_until2 a b s s' : advance_until2 a b s = Ok s' -> wfl s -> mvk 0 s s'.
+Proof. unfold advance_until2. intros H W. run_with pfw0. Qed.
+
+Lemma next_char_len s c n : next_char s = Ok (Some (c, n)) -> 1 <= n.
+Proof. unfold next_char. intros H. bsteps. eapply decode1_len; eauto. Qed.
+
+Lemma mv_skip_chars_loop fuel : forall f s s', skip_chars_loop text fuel f s = Ok s' -> wfl s ->
+  mvk 0 s s' /\ (s' = s \/ s_pos s < s_pos s').
+Proof.
+  induction fuel; intros f s s' H W; [discriminate|].
+  cbn [skip_chars_loop] in H. bsteps; try (split; [apply mvk_refl; assumption | left; reflexivity]).
+  apply next_char_len in Hb. fwdm Hb0 mv_advance.
+  apply IHfuel in H; [|assumption]. destruct H as [(? & ? & ?) _].
+  split; [mvfin | right; lia].
+Qed.
+
+Lemma mv_skip_chars f s s' : skip_chars text f s = Ok s' -> wfl s ->
+  mvk 0 s s' /\ (s' = s \/ s_pos s < s_pos s').
+Proof. unfold skip_chars. apply mv_skip_chars_loop. Qed.
+
+Lemma mv_consume_chars f s sl s' : consume_chars text f s = Ok (sl, s') -> wfl s ->
+  mvk 0 s s' /\ (s' = s \/ s_pos s < s_pos s').
+Proof.
+  unfold consume_chars. intros H W. bsteps. apply mv_skip_chars in Hb; assumption.
+Qed.
+
+Lemma mv_consume_chars0 f s sl s' : consume_chars text f s = Ok (sl, s') -> wfl s -> mvk 0 s s'.
+Proof. intros H W. apply mv_consume_chars in H; tauto. Qed.
+
+Lemma mv_skip_name_loop fuel : forall s s', skip_name_loop fuel s = Ok s' -> wfl s -> mvk 0 s s'.
+Proof.
+  induction fuel; intros s s' H W; [discriminate|].
+  cbn [skip_name_loop] in H. bsteps; try (apply mvk_refl; assumption).
+  fwdm Hb0 mv_advance. apply IHfuel in H; [|assumption]. destruct H as (? & ? & ?). mvfin.
+Qed.
+
+Lemma mv_skip_name s s' : skip_name text s = Ok s' -> wfl s -> mvk 0 s s'.
+Proof.
+  unfold skip_name. intros H W. bsteps; try (apply mvk_refl; assumption).
+  fwdm Hb0 mv_advance. apply mv_skip_name_loop in H; [|assumption]. destruct H as (? & ? & ?). mvfin.
+Qed.
+
+Ltac pfw1 :=
+  idtac; first [ pfw0 |
+  match goal with
+  | W : wfl ?s, H : consume_byte _ _ ?s = Ok _ |- _ => fwdm H mv_consume_byte
+  | W : wfl ?s, H : try_consume_byte _ ?s = (_, _) |- _ => fwdm H mv_try_consume_byte
+  | W : wfl ?s, H : skip_string _ _ ?s = Ok _ |- _ => fwdm H mv_skip_string
+  | W : wfl ?s, H : consume_bytes _ _ ?s = Ok _ |- _ => fwdm H mv_consume_bytes
+  | W : wfl ?s, H : consume_spaces _ ?s = Ok _ |- _ => fwdm H mv_consume_spaces
+  | W : wfl ?s, H : advance_until2 _ _ ?s = Ok _ |- _ => fwdm H mv_advance_until2
+  | W : wfl ?s, H : skip_chars _ _ ?s = Ok _ |- _ => fwdm H mv_skip_chars
+  | W : wfl ?s, H : consume_chars _ _ ?s = Ok _ |- _ => fwdm H mv_consume_chars0
+  | W : wfl ?s, H : skip_name _ ?s = Ok _ |- _ => fwdm H mv_skip_name
+  end ].
+
+Lemma mv_consume_name s sl s' : consume_name text s = Ok (sl, s') -> wfl s -> mvk 0 s s'.
+Proof. unfold consume_name. intros H W. run_with pfw1. Qed.
+
+Lemma mv_consume_qname_loop fuel : forall st sp s sp' s',
+  consume_qname_loop text fuel st sp s = Ok (sp', s') -> wfl s -> mvk 0 s s'.
+Proof.
+  induction fuel; intros st sp s sp' s' H W; [discriminate|].
+  cbn [consume_qname_loop] in H. bsteps; try (apply mvk_refl; assumption);
+  repeat pfw1;
+  (apply IHfuel in H; [|assumption]); destruct H as (? & ? & ?); mvfin.
+Qed.
+
+Lemma mv_consume_qname s p l s' : consume_qname text s = Ok (p, l, s') -> wfl s -> mvk 0 s s'.
+Proof.
+  unfold consume_qname. intros H W. bsteps;
+  (apply mv_consume_qname_loop in Hb; [|assumption]); exact Hb.
+Qed.
+
+Lemma mv_consume_eq s s' : consume_eq text s = Ok s' -> wfl s -> mvk 0 s s'.
+Proof. unfold consume_eq. intros H W. run_with pfw1. Qed.
+
+Lemma mv_consume_quote s q s' : consume_quote text s = Ok (q, s') -> wfl s -> mvk 0 s s'.
+Proof. unfold consume_quote. intros H W. run_with pfw1. Qed.
+
+Ltac pfw2 :=
+  idtac; first [ pfw1 |
+  match goal with
+  | W : wfl ?s, H : consume_name _ ?s = Ok _ |- _ => fwdm H mv_consume_name
+  | W : wfl ?s, H : consume_qname _ ?s = Ok _ |- _ => fwdm H mv_consume_qname
+  | W : wfl ?s, H : consume_eq _ ?s = Ok _ |- _ => fwdm H mv_consume_eq
+  | W : wfl ?s, H : consume_quote _ ?s = Ok _ |- _ => fwdm H mv_consume_quote
+  end ].
+
+(* a successful reference consumed at least "&" and ";" *)
+Lemma mv_consume_reference s r s' : consume_reference text s = Ok (Some (r, s')) -> wfl s ->
+  mvk 2 s s'.
+Proof.
+  unfold consume_reference. intros H W. run_with pfw2;
+  repeat match goal with b : bool |- _ => destruct b end; try discriminate; mvfin.
+Qed.
+
+End Prims.
+
+Section TokPrims.
+Variable text : bytes.
+Notation wfl := (wfl text).
+Notation mvk := (mvk text).
+
+Lemma mv_parse_attribute s s' : parse_attribute text s = Ok s' -> wfl s -> mvk 0 s s'.
+Proof. unfold parse_attribute. intros H W. run_with pfw2. Qed.
+
+Lemma mv_decl_consume_spaces s s' : decl_consume_spaces text s = Ok s' -> wfl s -> mvk 0 s s'.
+Proof. unfold decl_consume_spaces. intros H W. run_with pfw2; apply mvk_refl; assumption. Qed.
+
+Ltac pfw3 :=
+  idtac; first [ pfw2 |
+  match goal with
+  | W : wfl ?s, H : parse_attribute _ ?s = Ok _ |- _ => fwdm H mv_parse_attribute
+  | W : wfl ?s, H : decl_consume_spaces _ ?s = Ok _ |- _ => fwdm H mv_decl_consume_spaces
+  end ].
+
+Lemma mv_parse_declaration s s' : parse_declaration text s = Ok s' -> wfl s -> mvk 0 s s'.
+Proof. unfold parse_declaration. intros H W. run_with pfw3. Qed.
+
+Lemma mv_parse_external_id s b s' : parse_external_id text s = Ok (b, s') -> wfl s -> mvk 0 s s'.
+Proof. unfold parse_external_id. intros H W. run_with pfw3; apply mvk_refl; assumption. Qed.
+
+Ltac pfw4 :=
+  idtac; first [ pfw3 |
+  match goal with
+  | W : wfl ?s, H : parse_external_id _ ?s = Ok _ |- _ => fwdm H mv_parse_external_id
+  end ].
+
+Lemma mv_parse_entity_def s g o s' : parse_entity_def text s g = Ok (o, s') -> wfl s -> mvk 0 s s'.
+Proof. unfold parse_entity_def. intros H W. run_with pfw4. Qed.
+
+Lemma mv_consume_decl s s' : consume_decl text s = Ok s' -> wfl s -> mvk 0 s s'.
+Proof. unfold consume_decl. intros H W. run_with pfw4. Qed.
+
+Lemma mv_parse_doctype_start s s' : parse_doctype_start text s = Ok s' -> wfl s -> mvk 0 s s'.
+Proof. unfold parse_doctype_start. intros H W. run_with pfw4. Qed.
+
+End TokPrims.
+
+Ltac pfw :=
+  idtac; first [ pfw2 |
+  match goal with
+  | W : wfl _ ?s, H : parse_attribute _ ?s = Ok _ |- _ => fwdm H mv_parse_attribute
+  | W : wfl _ ?s, H : decl_consume_spaces _ ?s = Ok _ |- _ => fwdm H mv_decl_consume_spaces
+  | W : wfl _ ?s, H : parse_declaration _ ?s = Ok _ |- _ => fwdm H mv_parse_declaration
+  | W : wfl _ ?s, H : parse_external_id _ ?s = Ok _ |- _ => fwdm H mv_parse_external_id
+  | W : wfl _ ?s, H : parse_entity_def _ ?s _ = Ok _ |- _ => fwdm H mv_parse_entity_def
+  | W : wfl _ ?s, H : consume_decl _ ?s = Ok _ |- _ => fwdm H mv_consume_decl
+  | W : wfl _ ?s, H : parse_doctype_start _ ?s = Ok _ |- _ => fwdm H mv_parse_doctype_start
+  | W : wfl _ ?s, H : consume_reference _ ?s = Ok (Some _) |- _ => fwdm H mv_consume_reference
+  end ].
